@@ -568,9 +568,10 @@ func derive(r *rand.Rand, s *Schema, t *DNode, kids []*SNode, o DataOpts) *DNode
 			if fl != nil {
 				for _, e := range fl.Entries {
 					if dup, _ := nl.Find(e.Key()); dup == nil && r.Intn(2) == 0 {
-						// new entries go first sometimes: source order is not target order
+						// new entries go anywhere between the existing ones sometimes: source order is not target order
 						if r.Intn(3) == 0 {
-							nl.Entries = append([]*DNode{e}, nl.Entries...)
+							pos := r.Intn(len(nl.Entries) + 1)
+							nl.Entries = append(nl.Entries[:pos], append([]*DNode{e}, nl.Entries[pos:]...)...)
 						} else {
 							nl.Entries = append(nl.Entries, e)
 						}
